@@ -22,11 +22,189 @@
 //!
 //! Sessions with `# stress` lines run with the ordering lock of the hook switched off (only the
 //! real mutex serialises the threads); they are checked by the oracle only, not replayed.
+//!
+//! A tracking global allocator adds an implementation-level oracle for the "freed exactly once,
+//! with the right layout, nothing leaked" part: every `dealloc`/`realloc` in the process must
+//! present the layout the block was allocated with and must name a live block, and after the pool
+//! was dropped no allocation made inside a pool call may still be live.
 use hcommon::{Args, Out, Rng};
 use rten::verif::pool_log;
 use rten::{BufferPool, ExtractBuffer, PoolRef};
 use std::collections::HashMap;
 use std::sync::Barrier;
+
+mod track {
+    use std::alloc::{GlobalAlloc, Layout, System};
+    use std::cell::Cell;
+    use std::sync::atomic::{AtomicBool, AtomicI64, AtomicU64, Ordering};
+
+    const BITS: u32 = 18;
+    const N: usize = 1 << BITS;
+    struct Table {
+        ptr: [usize; N],
+        lay: [u64; N],
+    }
+    static mut TABLE: Table = Table { ptr: [0; N], lay: [0; N] };
+    static LOCK: AtomicBool = AtomicBool::new(false);
+    /// deallocations whose layout differs from the allocation's
+    pub static BAD_LAYOUT: AtomicU64 = AtomicU64::new(0);
+    /// deallocations of a pointer that is not a live allocation (double free)
+    pub static UNKNOWN_FREE: AtomicU64 = AtomicU64::new(0);
+    /// live allocations made while the calling thread's tag was set
+    pub static TAGGED_LIVE: AtomicI64 = AtomicI64::new(0);
+    pub static LAST_BAD: [AtomicU64; 3] = [AtomicU64::new(0), AtomicU64::new(0), AtomicU64::new(0)];
+
+    thread_local! {
+        static TAG: Cell<bool> = const { Cell::new(false) };
+    }
+    /// Mark allocations of the current thread as "made inside a pool call".
+    pub fn set_tag(on: bool) {
+        let _ = TAG.try_with(|t| t.set(on));
+    }
+    fn tag() -> bool {
+        TAG.try_with(|t| t.get()).unwrap_or(false)
+    }
+    fn enc(size: usize, align: usize, tagged: bool) -> u64 {
+        ((size as u64) << 8) | ((tagged as u64) << 7) | align.trailing_zeros() as u64
+    }
+    fn hash(p: usize) -> usize {
+        (((p >> 3) as u64).wrapping_mul(0x9E3779B97F4A7C15) >> (64 - BITS)) as usize
+    }
+    struct Held;
+    fn lock() -> Held {
+        while LOCK.compare_exchange_weak(false, true, Ordering::Acquire, Ordering::Relaxed).is_err() {
+            std::hint::spin_loop();
+        }
+        Held
+    }
+    impl Drop for Held {
+        fn drop(&mut self) {
+            LOCK.store(false, Ordering::Release);
+        }
+    }
+    unsafe fn insert(p: usize, lay: u64) {
+        let t = &mut *std::ptr::addr_of_mut!(TABLE);
+        let mut i = hash(p);
+        while t.ptr[i] != 0 {
+            i = (i + 1) & (N - 1);
+        }
+        t.ptr[i] = p;
+        t.lay[i] = lay;
+        if lay & 0x80 != 0 {
+            TAGGED_LIVE.fetch_add(1, Ordering::Relaxed);
+        }
+    }
+    /// Remove `p`; returns its recorded layout word.
+    unsafe fn remove(p: usize) -> Option<u64> {
+        let t = &mut *std::ptr::addr_of_mut!(TABLE);
+        let mut i = hash(p);
+        loop {
+            if t.ptr[i] == 0 {
+                return None;
+            }
+            if t.ptr[i] == p {
+                break;
+            }
+            i = (i + 1) & (N - 1);
+        }
+        let lay = t.lay[i];
+        // backward-shift deletion
+        loop {
+            t.ptr[i] = 0;
+            let mut j = i;
+            loop {
+                j = (j + 1) & (N - 1);
+                if t.ptr[j] == 0 {
+                    if lay & 0x80 != 0 {
+                        TAGGED_LIVE.fetch_sub(1, Ordering::Relaxed);
+                    }
+                    return Some(lay);
+                }
+                let k = hash(t.ptr[j]);
+                let between = if i <= j { i < k && k <= j } else { i < k || k <= j };
+                if !between {
+                    break;
+                }
+            }
+            t.ptr[i] = t.ptr[j];
+            t.lay[i] = t.lay[j];
+            i = j;
+        }
+    }
+    /// Check a release of `p` with `layout`; false = do not pass it on to the system allocator.
+    unsafe fn release(p: usize, layout: Layout) -> (bool, bool) {
+        match remove(p) {
+            None => {
+                UNKNOWN_FREE.fetch_add(1, Ordering::Relaxed);
+                LAST_BAD[0].store(p as u64, Ordering::Relaxed);
+                (false, false)
+            }
+            Some(lay) => {
+                if lay & !0x80 != enc(layout.size(), layout.align(), false) {
+                    BAD_LAYOUT.fetch_add(1, Ordering::Relaxed);
+                    LAST_BAD[0].store(p as u64, Ordering::Relaxed);
+                    LAST_BAD[1].store(lay & !0x80, Ordering::Relaxed);
+                    LAST_BAD[2].store(enc(layout.size(), layout.align(), false), Ordering::Relaxed);
+                }
+                (true, lay & 0x80 != 0)
+            }
+        }
+    }
+    pub struct Tracker;
+    unsafe impl GlobalAlloc for Tracker {
+        unsafe fn alloc(&self, layout: Layout) -> *mut u8 {
+            let p = System.alloc(layout);
+            if !p.is_null() {
+                let tagged = tag();
+                let _g = lock();
+                insert(p as usize, enc(layout.size(), layout.align(), tagged));
+            }
+            p
+        }
+        unsafe fn alloc_zeroed(&self, layout: Layout) -> *mut u8 {
+            let p = System.alloc_zeroed(layout);
+            if !p.is_null() {
+                let tagged = tag();
+                let _g = lock();
+                insert(p as usize, enc(layout.size(), layout.align(), tagged));
+            }
+            p
+        }
+        unsafe fn dealloc(&self, p: *mut u8, layout: Layout) {
+            let ok = {
+                let _g = lock();
+                release(p as usize, layout).0
+            };
+            if ok {
+                System.dealloc(p, layout)
+            }
+        }
+        unsafe fn realloc(&self, p: *mut u8, layout: Layout, new_size: usize) -> *mut u8 {
+            let (ok, was_tagged) = {
+                let _g = lock();
+                release(p as usize, layout)
+            };
+            if !ok {
+                return std::ptr::null_mut();
+            }
+            let q = System.realloc(p, layout, new_size);
+            let tagged = was_tagged || tag();
+            let _g = lock();
+            if q.is_null() {
+                insert(p as usize, enc(layout.size(), layout.align(), was_tagged));
+            } else {
+                insert(q as usize, enc(new_size, layout.align(), tagged));
+            }
+            q
+        }
+    }
+    pub fn snapshot() -> (u64, u64, i64) {
+        (BAD_LAYOUT.load(Ordering::SeqCst), UNKNOWN_FREE.load(Ordering::SeqCst), TAGGED_LIVE.load(Ordering::SeqCst))
+    }
+}
+
+#[global_allocator]
+static GLOBAL: track::Tracker = track::Tracker;
 
 macro_rules! types {
     ($($name:ident : $t:ty),* $(,)?) => {
@@ -41,6 +219,14 @@ macro_rules! types {
             fn name(self) -> &'static str { match self { $(TyId::$name => stringify!($t)),* } }
             fn alloc(self, pool: &BufferPool, cap: usize) -> AnyVec {
                 match self { $(TyId::$name => AnyVec::$name(pool.alloc::<$t>(cap))),* }
+            }
+            /// `NdTensor::zeros_in(&pool, [cap])` (the `Alloc` trait path), data taken back out.
+            fn alloc_tensor(self, pool: &BufferPool, cap: usize) -> AnyVec {
+                match self { $(TyId::$name => {
+                    let mut v = rten_tensor::NdTensor::<$t, 1>::zeros_in(pool, [cap]).into_data();
+                    v.clear();
+                    AnyVec::$name(v)
+                }),* }
             }
         }
         impl AnyVec {
@@ -59,6 +245,15 @@ macro_rules! types {
             /// `PoolRef::new(pool, vec).take()`: must hand the vec back untouched.
             fn pool_ref_take(self, pool: &BufferPool) -> AnyVec {
                 match self { $(AnyVec::$name(v) => AnyVec::$name(PoolRef::new(pool, v).take())),* }
+            }
+            /// `NdTensor::from_data(..).extract_buffer()` then `pool.add` (always `Some`, also for capacity 0).
+            fn tensor_extract_add(self, pool: &BufferPool) {
+                match self { $(AnyVec::$name(mut v) => {
+                    let k = v.capacity().min(3);
+                    v.resize(k, Default::default());
+                    let t = rten_tensor::NdTensor::<$t, 1>::from_data([k], v);
+                    if let Some(b) = t.extract_buffer() { pool.add(b) }
+                }),* }
             }
             /// `extract_buffer()` then `pool.add(buffer)` (what `PoolRef::drop` does, by hand).
             fn extract_and_add(self, pool: &BufferPool) {
@@ -219,8 +414,15 @@ impl<'a> Worker<'a> {
         self.next_slot += 1;
         pool_log::take_thread_log();
         let pool = self.pool;
-        let r = hcommon::catch(|| ty.alloc(pool, cap));
+        let via_tensor = ty.size_align().0 > 0 && cap <= 1000 && self.rng.chance(1, 6);
+        let r = hcommon::catch(|| {
+            track::set_tag(true);
+            let v = if via_tensor { ty.alloc_tensor(pool, cap) } else { ty.alloc(pool, cap) };
+            track::set_tag(false);
+            v
+        });
         let log = pool_log::take_thread_log();
+        track::set_tag(false);
         let s_post = pool_log::next_seq();
         let got = |v: &AnyVec| Res::Got { ptr: v.ptr(), cap: v.capacity(), len: v.len() };
         match (log.as_slice(), &r) {
@@ -275,9 +477,14 @@ impl<'a> Worker<'a> {
                 drop(v);
                 self.ev(s_pre * 2, tid, Kind::DropVec, slot, ty, 0, Res::Freed);
             }
-            1 => {
-                let r = hcommon::catch(|| v.add_to(pool));
+            1 | 4 => {
+                let r = hcommon::catch(|| {
+                    track::set_tag(true);
+                    if how == 1 { v.add_to(pool) } else { v.tensor_extract_add(pool) }
+                    track::set_tag(false);
+                });
                 let log = pool_log::take_thread_log();
+                track::set_tag(false);
                 match (log.as_slice(), r) {
                     ([], Ok(())) => self.ev(s_pre * 2, tid, Kind::AddStart, slot, ty, 0, Res::Rejected),
                     ([], Err(_)) => self.ev(s_pre * 2, tid, Kind::AddStart, slot, ty, 0, Res::Panic),
@@ -289,8 +496,13 @@ impl<'a> Worker<'a> {
                 }
             }
             _ => {
-                let r = hcommon::catch(|| if how == 2 { v.pool_ref_drop(pool) } else { v.extract_and_add(pool) });
+                let r = hcommon::catch(|| {
+                    track::set_tag(true);
+                    if how == 2 { v.pool_ref_drop(pool) } else { v.extract_and_add(pool) }
+                    track::set_tag(false);
+                });
                 let log = pool_log::take_thread_log();
+                track::set_tag(false);
                 match (log.as_slice(), r) {
                     ([], Ok(())) => {
                         let res = if cap0 { Res::NoBuf } else { Res::Rejected };
@@ -317,8 +529,10 @@ impl<'a> Worker<'a> {
             let r = self.rng.below(100);
             if self.slots.len() < 6 && r < 50 || self.slots.is_empty() {
                 self.op_alloc();
-            } else if r < 80 {
+            } else if r < 74 {
                 self.op_release(1);
+            } else if r < 80 {
+                self.op_release(4);
             } else if r < 86 {
                 self.op_release(0);
             } else if r < 94 {
@@ -331,13 +545,14 @@ impl<'a> Worker<'a> {
 
     fn release_all(&mut self) {
         while !self.slots.is_empty() {
-            let how = *self.rng.pick(&[0u64, 1, 1, 2]);
+            let how = *self.rng.pick(&[0u64, 1, 1, 2, 4]);
             self.op_release(how);
         }
     }
 }
 
 struct SessionCfg {
+    index: u64,
     threads: usize,
     ops: usize,
     ordered: bool,
@@ -352,9 +567,12 @@ struct SessionResult {
     hits: usize,
     /// pointers (bytes > 0) still held by the workers at the first quiescent point
     held_ptrs: Vec<usize>,
+    /// tracking allocator: (bad-layout frees, unknown frees, tagged allocations still live) deltas
+    track_delta: (u64, u64, i64),
 }
 
 fn run_session(cfg: &SessionCfg, rng: &mut Rng) -> SessionResult {
+    let t0 = track::snapshot();
     let pool = if cfg.min_size == 128 && rng.chance(1, 2) {
         BufferPool::new()
     } else {
@@ -372,7 +590,7 @@ fn run_session(cfg: &SessionCfg, rng: &mut Rng) -> SessionResult {
             logical_tids: if mt { 1 } else { 3 },
             slots: vec![],
             events: vec![],
-            next_slot: (t as u64) * 1_000_000,
+            next_slot: cfg.index * 8_000_000 + (t as u64) * 1_000_000,
             hot_caps: hot.clone(),
             mt,
             with_overflow: cfg.with_overflow,
@@ -422,9 +640,10 @@ fn run_session(cfg: &SessionCfg, rng: &mut Rng) -> SessionResult {
     pool_log::set_ordered(false);
     let mut events: Vec<Event> = workers.into_iter().flat_map(|w| w.events).collect();
     events.sort_by_key(|e| e.key);
-    let res = SessionResult { events, len: pool.len(), allocs: pool.alloc_count(), hits: pool.hit_count(), held_ptrs };
+    let (len, allocs, hits) = (pool.len(), pool.alloc_count(), pool.hit_count());
     drop(pool);
-    res
+    let t1 = track::snapshot();
+    SessionResult { events, len, allocs, hits, held_ptrs, track_delta: (t1.0 - t0.0, t1.1 - t0.1, t1.2 - t0.2) }
 }
 
 fn idz(ord: Option<u64>, bytes: usize) -> String {
@@ -460,10 +679,10 @@ fn answers(cfg: &SessionCfg, r: &SessionResult) -> Vec<(String, String, Option<S
         };
         let req = match e.kind {
             Kind::AllocStart => format!("{} a {} {} {} {}", e.tid, e.slot, size, align, e.req_cap),
-            Kind::Lock => format!("{} l", e.tid),
-            Kind::Fallback => format!("{} f", e.tid),
+            Kind::Lock => format!("{} l {}", e.tid, e.slot),
+            Kind::Fallback => format!("{} f {}", e.tid, e.slot),
             Kind::AddStart => format!("{} d {}", e.tid, e.slot),
-            Kind::Push => format!("{} p", e.tid),
+            Kind::Push => format!("{} p {}", e.tid, e.slot),
             Kind::DropVec => format!("{} x {}", e.tid, e.slot),
             Kind::RefDrop => format!("{} r {}", e.tid, e.slot),
         };
@@ -484,7 +703,14 @@ fn answers(cfg: &SessionCfg, r: &SessionResult) -> Vec<(String, String, Option<S
                 "pend".to_string()
             }
             Res::Miss => "miss".into(),
-            Res::Panic => "panic".into(),
+            Res::Panic => {
+                // Only `Vec::with_capacity` ("capacity overflow") may panic; a panic inside the
+                // critical section or in `add` would also poison the pool mutex.
+                if !matches!(e.kind, Kind::AllocStart | Kind::Fallback) {
+                    set_fail("panic inside the pool (critical section of alloc, or add)".into());
+                }
+                "panic".into()
+            }
             Res::Pushed => {
                 n_add += 1;
                 "ok".into()
@@ -571,8 +797,35 @@ fn answers(cfg: &SessionCfg, r: &SessionResult) -> Vec<(String, String, Option<S
         fail = Some("two live holders own the same pointer".into());
     }
     out.push(("stat".into(), format!("len={} allocs={} hits={}", r.len, r.allocs, r.hits), fail));
-    out.push(("end".into(), format!("dropped {}", r.len), None));
+    let (bad, unknown, leaked) = r.track_delta;
+    let mut fail = None;
+    if bad != 0 || unknown != 0 {
+        fail = Some(format!(
+            "allocator contract: {bad} deallocation(s) with a layout different from the allocation's, {unknown} of a non-live pointer"
+        ));
+    } else if leaked != 0 {
+        fail = Some(format!("{leaked} allocation(s) made inside pool calls are still live after the pool was dropped"));
+    }
+    out.push(("end".into(), format!("dropped {}", r.len), fail));
     out
+}
+
+/// Run one session; a panic that escapes the per-call `catch` (e.g. a poisoned pool mutex) is
+/// itself a failure of the property's "never panics inside the pool" consequence.
+fn session(out: &mut Out, cfg: &SessionCfg, rng: &mut Rng) {
+    match hcommon::catch(|| run_session(cfg, rng)) {
+        Ok(r) => emit_session(out, cfg, &r),
+        Err(m) => {
+            track::set_tag(false);
+            pool_log::set_ordered(false);
+            out.case(
+                &format!("# session {} min_size={} threads={}", cfg.index, cfg.min_size, cfg.threads),
+                "panic",
+                Some(&format!("session aborted by a panic outside alloc/add/drop calls: {m}")),
+                false,
+            );
+        }
+    }
 }
 
 fn emit_session(out: &mut Out, cfg: &SessionCfg, r: &SessionResult) {
@@ -583,7 +836,7 @@ fn emit_session(out: &mut Out, cfg: &SessionCfg, r: &SessionResult) {
     if cfg.ordered || cfg.threads == 1 {
         out.case(&format!("new {}", cfg.min_size), "ok", None, false);
         for (req, ans, fail) in &steps {
-            let w = ans.split(' ').next().unwrap_or("");
+            let w = ans.split(|c| c == ' ' || c == '=').next().unwrap_or("");
             out.bucket(&format!("step_{w}"));
             if ans.ends_with(" z") || ans.contains(" z ") {
                 out.bucket("zero_size_buffer");
@@ -612,40 +865,44 @@ fn main() {
     // mass on: min_size 0 (zero-sized layouts enter the pool), capacity 0, ZSTs, byte sizes
     // that wrap in the bypass test.
     // (b) single-threaded sessions (deterministic in the seed)
+    let mut index = 0u64;
     for i in 0..600 * scale {
+        index += 1;
         let cfg = SessionCfg {
+            index,
             threads: 1,
             ops: 20 + rng.usize_below(60),
             ordered: true,
             min_size: *rng.pick(&min_sizes),
             with_overflow: i % 3 == 0,
         };
-        let r = run_session(&cfg, &mut rng);
-        emit_session(&mut out, &cfg, &r);
+        session(&mut out, &cfg, &mut rng);
     }
     // (c) multi-threaded sessions with the logged order of critical sections replayed on the model
     for _ in 0..500 * scale {
+        index += 1;
         let cfg = SessionCfg {
+            index,
             threads: 2 + rng.usize_below(2),
             ops: 10 + rng.usize_below(40),
             ordered: true,
             min_size: *rng.pick(&min_sizes),
             with_overflow: false,
         };
-        let r = run_session(&cfg, &mut rng);
-        emit_session(&mut out, &cfg, &r);
+        session(&mut out, &cfg, &mut rng);
     }
     // (d) stress sessions: only the pool's own mutex orders the threads; oracle only
     for _ in 0..150 * scale {
+        index += 1;
         let cfg = SessionCfg {
+            index,
             threads: 2 + rng.usize_below(5),
             ops: 100 + rng.usize_below(200),
             ordered: false,
             min_size: *rng.pick(&min_sizes),
             with_overflow: false,
         };
-        let r = run_session(&cfg, &mut rng);
-        emit_session(&mut out, &cfg, &r);
+        session(&mut out, &cfg, &mut rng);
     }
     out.note("multi-threaded sessions depend on OS scheduling: the seed fixes the per-thread programs, the logged order of critical sections (written to req.txt) fixes the replay");
     out.finish("one line per atomic step of alloc/add/drop (linearised by the critical-section log); the model replays the schedule and must return the same (ordinal, capacity); oracle: capacity>=requested, alignment, unique holder, fill-pattern intact, counters at quiescence");
